@@ -358,7 +358,7 @@ def secret_line(r, ctx, secrets, kinds=("keep", "scrub"), ident=None, templates=
     return None
 
 
-def gen_lines(r, ctx, secrets, o, n, eol_variety=True):
+def gen_lines(r, ctx, secrets, o, n, eol_variety=True, long_ok=True):
     """n lines mixing benign vocabulary with sensitive items at known positions."""
     lines = []
     for _ in range(n):
@@ -383,7 +383,7 @@ def gen_lines(r, ctx, secrets, o, n, eol_variety=True):
             ln = G.expand(r, r.choice(G.LINES_AS), ctx)
         if ln is None:
             ln = G.lit_line(r.choice(G.BENIGN))
-        if r.random() < 0.008:
+        if r.random() < 0.008 and long_ok:
             ln = long_pad(r, ln, secrets)
         if eol_variety and r.random() < 0.05:
             ln["eol"] = "\r\n"
